@@ -21,15 +21,23 @@ EvalT(f, inb) == /\ phase = "running"
                  /\ best' = IF inb /\ f > best THEN f ELSE best
                  /\ allin' = (allin /\ inb)
                  /\ UNCHANGED <<phase, start, final>>
+(* the calculator REFUSES a vector during the evaluation (ParameterOutOfBoundsError / ArithmeticError raised by a   *)
+(* cell, e.g. GeneralStationary's exchangeability matrix): the optimiser sees -infinity; legal, changes nothing      *)
+RejectedT == /\ phase = "running"
+             /\ evals' = evals + 1
+             /\ UNCHANGED <<phase, start, best, final, allin>>
 FinishT(f) == /\ phase = "running" /\ phase' = "done" /\ final' = f
               /\ UNCHANGED <<start, best, evals, allin>>
 ResetT == phase = "done" /\ phase' = "idle" /\ UNCHANGED <<start, best, final, evals, allin>>
 
 Next == \/ \E f \in 0..MaxRank : StartT(f) \/ FinishT(f)
         \/ \E f \in 0..MaxRank, b \in BOOLEAN : EvalT(f, b)
+        \/ RejectedT
         \/ ResetT
 Spec == Init /\ [][Next]_vars
 
+(* There is NO action by which a running optimisation ends other than FinishT: a run started from a point with a     *)
+(* finite likelihood that ends by RAISING (Trace event "raised") is not a behaviour of this specification.            *)
 (* the obligations (checked on recorded runs by Trace_Optimiser) *)
 NeverLoses == phase = "done" => final >= start
 WithinBounds == allin
